@@ -1231,5 +1231,25 @@ def _run_case(ctx):
                     break
             ctx.check("key-sort", bad is None,
                       lambda: f"{keyfn.__name__}: sorted order {got!r}; family {bad[0]!r} has integers {bad[1]!r}")
+        # the key factory for "<name>_<index>" symbols with a fixed order of names: indices are compared
+        # numerically first, names by their position in the given list
+        from orquestra.quantum.circuits.symbolic._sorting import natural_key_fixed_names_order
+
+        pool = ["gamma", "beta", "theta", "x", "alpha"]
+        rng.shuffle(pool)
+        order_names = pool[: rng.randint(1, 4)]
+        idx = [int(mk_int()) for _ in range(rng.randint(2, 6))]
+        fn_names = list(dict.fromkeys(f"{nm}_{i}" for i in idx for nm in order_names if rng.random() < 0.8))
+        if len(fn_names) >= 2:
+            fsyms = [S.Symbol(n) if kind == "sympy" else EX.Symbol(n) for n in fn_names]
+            rng.shuffle(fsyms)
+            try:
+                got = [s.name for s in sorted(fsyms, key=natural_key_fixed_names_order(order_names))]
+            except Exception as ex:
+                ctx.check("key-sort", False, f"sorting {fn_names!r} with natural_key_fixed_names_order({order_names!r}) raised {ex!r}")
+            else:
+                pairs = [(int(n.rsplit("_", 1)[1]), order_names.index(n.rsplit("_", 1)[0])) for n in got]
+                ctx.check("key-sort", all(pairs[i] <= pairs[i + 1] for i in range(len(pairs) - 1)),
+                          lambda: f"natural_key_fixed_names_order({order_names!r}): sorted order {got!r} is not by (numeric index, name position)")
         return
     raise ValueError(cls)
